@@ -159,7 +159,7 @@ def check_contacts(chk, fi: FuncInfo, fm: FlowMap, loop: ast.For) -> None:
 FACT = {
     "contact-skips", "contact-extra-filter", "contact-atoms", "contact-typing", "contact-roles", "model-filter", "contact-skips-dominate",
     "label-extra-filter", "label-edges", "label-cistrans", "label-skips", "label-roles", "angle-record", "angle-operands",
-    "select-record", "select-source", "select-roles", "base-normal",
+    "select-record", "select-source", "select-roles", "base-normal", "contact-distinct-points",
 }
 
 
@@ -200,6 +200,11 @@ def check_find_pairs(chk, parts=("contacts", "angles", "labels", "selection")) -
                 return
             except (c03e.NotReadable, c03e.SX.TooManyPaths) as ex:
                 reason = str(ex)
+            except AnalysisError:
+                raise
+            except Exception as ex:  # a crash of the reading is an analysis error of this rule group, never a verdict and never a traceback
+                chk.error("reading", fi.where, f"{name}: internal error of the fact-level reading ({type(ex).__name__}: {str(ex)[:120]})")
+                return
         else:
             reason = why
         chk.ok("reading", fi.where, f"{name}: fact-level reading not possible ({reason[:120]}); pinned-form rules used")
@@ -207,7 +212,7 @@ def check_find_pairs(chk, parts=("contacts", "angles", "labels", "selection")) -
 
     if "contacts" in parts:
         check_radius(chk, fi, loop)
-        fact("registration", lambda: c03e.check_registration(chk, fi, model, spec), lambda: check_contacts(chk, fi, fm, loop))
+        fact("registration", lambda: c03e.check_registration(chk, fi, model, spec, distinct="selection" in parts), lambda: check_contacts(chk, fi, fm, loop))
         fact("contact loop", lambda: c03e.check_contacts(chk, fi, loop, model, _eq_fields), lambda: _contact_skips(chk, fi, fm, loop))
     if "angles" in parts:
         fact("angle window", lambda: c03e.check_angles(chk, fi, model, fold, c), lambda: _angle_window(chk, fi, fm, inl, loop, fold, c))
